@@ -1303,11 +1303,10 @@ def searchLoop (mark : Nat) (backup : Text) (backupPos : Nat) :
       refreshLine S U cfg
       truncateChanges mark
       pure none
-    | .move _ => do
-      refreshLine S U cfg
-      let _ ← changesEnd
-      pure (some cmd)
     | _ => do
+      -- every other command ends the search; the read's own prompt is restored first (repair of D42:
+      -- before it only `Move` commands repainted)
+      refreshLine S U cfg
       let _ ← changesEnd
       pure (some cmd)
 
